@@ -12,6 +12,7 @@ import importlib
 import logging
 import marshal
 import math
+import re
 import sys
 import tokenize as tk
 
@@ -38,6 +39,9 @@ from pycel import _verif  # noqa: I100, I202
 
 
 ADDR_FUNCS_NAMES = '_R_', '_C_', '_REF_'
+
+# a reference as it was written in the formula, in the emitted code
+WRITTEN_REFERENCE_RE = re.compile(r'_REF_\("(?:[^"\\]|\\.)*"\)')
 
 
 class FormulaParserError(PyCelException):
@@ -307,12 +311,17 @@ class OperatorNode(ASTNode):
                           .replace('_R_', '_REF_')
                           .replace('_C_', '_REF_')
                           )
-            if all(type(arg) is RangeNode for arg in args):
-                # both references are written, the union (which covers more
-                # cells than the two of them) is known, and so are the cells
-                # the formula needs
-                union = eval(ss[4:-1], {'_REF_': AddressRange.create})
-                if union not in ERROR_CODES:
+            if not WRITTEN_REFERENCE_RE.sub('', ss[8:-2]).strip(' ()*&'):
+                # both references are written (maybe in parentheses, maybe
+                # a union or an intersection themselves), the union (which
+                # covers more cells than the two of them) is known, and so
+                # are the cells the formula needs
+                try:
+                    union = eval(ss[4:-1], {'_REF_': AddressRange.create})
+                except Exception:  # noqa: B902
+                    # an error value or a defined name among the operands
+                    union = None
+                if union and union not in ERROR_CODES:
                     ss = '_R_("{}")'.format(union.replace('"', '\\"'))
         else:
             if op != ',':
